@@ -13,6 +13,7 @@ ROOT = os.path.dirname(os.path.dirname(os.path.abspath(__file__)))
 EVIDENCE_DIR = os.path.join(ROOT, 'evidence')
 REPLAY_NEW = os.path.join(ROOT, 'replays', 'new')
 KNOWN_FILE = os.path.join(ROOT, 'known_findings.json')
+MAX_PRINT = 12
 NCPU = int(os.environ.get('VERIF_JOBS', os.cpu_count() or 4))
 
 
@@ -104,7 +105,9 @@ class Report(object):
       printed.add(k['match'])
       print('KNOWN-FINDING: property=%s %s [%s]' % (self.pid, k['what'], k['match']))
     rc = 0
-    for v, _ in new:
+    if len(new) > MAX_PRINT:
+      print('(%d distinct violations; reporting the first %d)' % (len(new), MAX_PRINT))
+    for v, _ in new[:MAX_PRINT]:
       h = hashlib.sha1(v.sig.encode()).hexdigest()[:10]
       path = os.path.join(REPLAY_NEW, '%s-%s.json' % (self.pid, h))
       with open(path, 'w') as f:
@@ -162,6 +165,10 @@ class Report(object):
 _WORKER = None
 
 
+class HarnessHang(Exception):
+  """A worker never returned: the code under test hangs (or is far too slow)."""
+
+
 def _call(item):
   try:
     return ('ok', _WORKER(item))
@@ -181,8 +188,13 @@ def pmap(worker, items, jobs=None, chunksize=None):
     ctx = multiprocessing.get_context('fork')
     if chunksize is None:
       chunksize = max(1, len(items) // (jobs * 8))
+    limit = float(os.environ.get('VERIF_TIMEOUT', '1500'))
     with ctx.Pool(jobs) as pool:
-      out = pool.map(_call, items, chunksize)
+      try:
+        out = pool.map_async(_call, items, chunksize).get(timeout=limit)
+      except multiprocessing.TimeoutError:
+        pool.terminate()
+        raise HarnessHang('workers did not finish within %.0fs' % limit)
   res = []
   for tag, val in out:
     if tag == 'err':
